@@ -211,3 +211,23 @@ def mk_ivs(ts, labels=LABELS):
 
 def tuples(entries):
     return [tuple(e) for e in entries]
+
+
+# ----------------------------------------------------------------- anchors
+def not_encoded(name, msg, funcs=()):
+    """marker obligation: the code no longer has the shape a slicer looks for, so this part
+    of the encoding cannot be regenerated from the current source.  It is reported (NOT-ENCODED)
+    and listed in the evidence, it decides nothing and it raises no alarm."""
+    return Ob(name + "-anchor", [], lambda: True, kind="smt", smt=lambda: {"verdict": "NOT-ENCODED", "detail": msg}, timeout=30, funcs=list(funcs), bounds="AST anchor check")
+
+
+def guard(obs, name, thunk, funcs=()):
+    """obs += thunk(); an AssertionError / AnchorMissing / Unsupported raised while the
+    obligations are built from the current AST becomes a NOT-ENCODED marker"""
+    try:
+        new = thunk()
+    except Exception as e:  # noqa
+        if not (isinstance(e, AssertionError) or type(e).__name__ in ("AnchorMissing", "Unsupported", "RxUnsupported")):
+            raise
+        new = [not_encoded(name, "%s" % e, funcs)]
+    obs.extend(new if isinstance(new, list) else [new])
